@@ -473,6 +473,20 @@ def _rewrite(expr, mapping):
     return T().visit(clone(expr))
 
 
+def _abundance_sums_off_one(ctx):
+    """Elements of the isotope table whose natural abundances do not sum to 1 (within 1e-6); None if the table is not a
+    literal.  Read from the source of periodic_table.py, nothing is imported."""
+    try:
+        mod = ctx.repo.module(MAT + "periodic_table.py")
+        for st in mod.tree.body:
+            if isinstance(st, ast.Assign) and isinstance(st.targets[0], ast.Name) and st.targets[0].id == "PT_DATA":
+                d = ast.literal_eval(st.value)
+                return sorted(k for k, row in d.items() if abs(sum(v[1] for v in row[1].values()) - 1.0) > 1e-6)
+    except Exception:
+        return None
+    return None
+
+
 def r4_species(ctx):
     from ..flowexpr import paths
     fn = ctx.fn(EL, "Element.get_isotope")
@@ -590,6 +604,18 @@ def r4_species(ctx):
                           f"{col} is the abundance-weighted mean", detail=norm(c)[:100], expected=f"np.average({rc}.{col}, weights={rc}.NA)")
             elif isinstance(c, ast.Call) and dotted_name(c.func) in ("np.mean", "numpy.mean", "np.sum", "np.median"):
                 ctx.violated(EL, "Element.get_natural", f"{col} is the abundance-weighted mean", detail=norm(c)[:100], expected=f"np.average({rc}.{col}, weights={rc}.NA)")
+            elif isinstance(c, ast.Call) and dotted_name(c.func) in ("np.dot", "numpy.dot", "np.inner", "np.vdot") and len(c.args) == 2 \
+                    and {norm(c.args[0]), norm(c.args[1])} == {f"{rc}.{col}", f"{rc}.NA"}:
+                # sum(x*w) is the mean only where the weights sum to one: read the abundance column of the table itself
+                off = _abundance_sums_off_one(ctx)
+                if off is None:
+                    ctx.unrecognised(EL, "Element.get_natural", f"{col} is the abundance-weighted mean", "isotope table not a literal")
+                elif off:
+                    ctx.violated(EL, "Element.get_natural", f"{col} is the abundance-weighted mean",
+                                 detail=f"{norm(c)[:60]}: a weighted sum without the division by the sum of the weights; {len(off)} table rows have abundances that do not sum to 1 (e.g. {', '.join(off[:4])})",
+                                 expected=f"np.average({rc}.{col}, weights={rc}.NA)")
+                else:
+                    ctx.holds(EL, "Element.get_natural", f"{col} is the abundance-weighted mean", detail="weights sum to one in every table row")
             else:
                 ctx.unrecognised(EL, "Element.get_natural", f"{col} is the abundance-weighted mean", f"column term {norm(c)[:100]}")
         loops = [e for e in qs[0].events if e.kind == "loop"]
